@@ -290,13 +290,21 @@ fn process_request_obj(request: &Request, dbs: &Arc<Databases>, client: &mut Cli
                             let mut user_name_state = client.selected_db.user_name.write().unwrap();
 
                             if is_valid_user_token(&token, &user_name, db) {
-                                leave_previous_db(&db_name_state, &dbs_map, &dbs);
+                                // Selecting the database the session already has selected changes
+                                // nothing about who is connected: the counter (and its watchers) must
+                                // not go through a number of sessions that never was
+                                let same_db = db_name_state.as_ref() == Some(&name);
+                                if !same_db {
+                                    leave_previous_db(&db_name_state, &dbs_map, &dbs);
+                                }
                                 let _ = std::mem::replace(&mut *db_name_state, Some(name.clone()));
                                 let _ = std::mem::replace(
                                     &mut *user_name_state,
                                     Some(user_name.clone()),
                                 );
-                                change_connection_counter(db, &dbs, true); //Increment the number of connections
+                                if !same_db {
+                                    change_connection_counter(db, &dbs, true); //Increment the number of connections
+                                }
                                 Response::Ok {}
                             } else {
                                 Response::Error {
@@ -307,9 +315,14 @@ fn process_request_obj(request: &Request, dbs: &Arc<Databases>, client: &mut Cli
                         None => {
                             if is_valid_token(&token, db) {
                                 let mut db_name_state = client.selected_db.name.write().unwrap();
-                                leave_previous_db(&db_name_state, &dbs_map, &dbs);
+                                let same_db = db_name_state.as_ref() == Some(&name);
+                                if !same_db {
+                                    leave_previous_db(&db_name_state, &dbs_map, &dbs);
+                                }
                                 let _ = std::mem::replace(&mut *db_name_state, Some(name.clone()));
-                                change_connection_counter(db, &dbs, true); //Increment the number of connections
+                                if !same_db {
+                                    change_connection_counter(db, &dbs, true); //Increment the number of connections
+                                }
                                 Response::Ok {}
                             } else {
                                 Response::Error {
